@@ -27,7 +27,7 @@ def encode_payload(enc, msg, use_ebyte=False):
     if use_ebyte:
         pk = enc.encode_ebyte(msg)
         if len(pk) == 1:
-            return pk[0][5:]
+            return pk[0][5:5 + (pk[0][0] & 0x0F)]
     s = enc.encode_actisense(msg)
     return bytes.fromhex(s.split()[2]) if len(s.split()) > 2 else b""
 
